@@ -907,7 +907,11 @@ struct Session
         if (r) {
             if (unOk) {
                 if (un == 1 && judgeTruth) {
-                    std::string fp = firstUnresolvedPath(g), b = blindSpot(fp);
+                    std::string fp = firstUnresolvedPath(g);
+                    // every import bound to a model, yet unresolved, in a graph the reference calls unsatisfiable: the model is (rightly) unresolved
+                    // because of the failure resolveImports did not see - name the class after the path to THAT failure, not after the diamond defect
+                    if (fp == "?" && v.expect == EX_FALSE && !v.whyPath.empty()) fp = v.whyPath;
+                    std::string b = blindSpot(fp);
                     json d = {{"issues", issuesJson(imp)}, {"case", detail}, {"path", fp}};
                     if (!b.empty()) report(c, ph + "resolve:true-but-hasUnresolvedImports:blind-spot=" + b, d);
                     else if (fp == "?") report(c, ph + "resolve:true-but-hasUnresolvedImports:every-import-in-the-closure-has-a-model", d);
